@@ -7,6 +7,15 @@ regenerated from the working tree) against the running interpreter's own parser:
                   in `ast.<Node>.__doc__` (xv/c01_gen.py), rendered with `ast.unparse`;
   concrete layer  every instance of every rule of a catalogue of text respellings (xv/c01_rw.py):
                   spacing, parentheses, trailing commas, string / number spellings, statement layout;
+  sequence layer  every ordered pair (thorough: triple) of lexically stateful statements as one
+                  program (xv/c01_seq.py);
+  alternation     for every repetition construct of CPython's grammar (comprehension clauses, elif /
+  layer           handlers / with-items / cases / decorators, operator chains, trailers, argument,
+                  parameter, subscript, target, import, type-parameter lists, string and f-string
+                  parts, `;` lines, block nesting) EVERY sequence over the construct's element alphabet
+                  up to length 3 (thorough 4), names pairwise different (xv/c01_alt.py) - the merge
+                  step of a right-recursive rule goes wrong for particular alternation patterns
+                  (`for..if..if..for`) that a deviation budget never builds;
   domain filter   a text is an input iff `ast.parse(text, mode=m)` accepts it, and CPython's tree of
                   *that text* is the expected tree (no generator or rule is trusted);
   modes           exec for every text; eval for expression programs (canonical texts and the full rewrite
@@ -648,7 +657,7 @@ def run(ctx):
     ctx.coverage.update(
         evaluations=tot["evals"],
         distinct_nontrivial=distinct,
-        rule="every typed AST (constructors/fields read from ast.<Node>.__doc__) within the deviation budget, rendered by ast.unparse, plus every instance of every rewrite rule its cost class is entitled to (pairs > full > light); an input is a (text, mode) pair that ast.parse accepts; non-trivial = distinct accepted inputs that reached the tree comparison",
+        rule="every typed AST (constructors/fields read from ast.<Node>.__doc__) within the deviation budget, rendered by ast.unparse, plus every instance of every rewrite rule its cost class is entitled to (pairs > full > light), plus every pair/triple of lexically stateful statements, plus every element sequence up to the length bound of every repetition construct of the grammar (alternation layer); an input is a (text, mode) pair that ast.parse accepts; non-trivial = distinct accepted inputs that reached the tree comparison",
         exhaustive=True,
         typed_trees=raw,
         canonical_texts=len(canon),
